@@ -166,9 +166,9 @@ SBIN(s_ashr, _ZNK4crab7domains4signIN4ikos8z_numberEE4AShrERKS4_, g_y >= 0, c_as
 
 /* bounded cross-check (thorough tier): the same contracts with * / % bit-precise on points |g| < 2^6 (ZM_PRECISE):
  * the uninterpreted reading above agrees with the machine operations; NOT counted as proof */
-//@check id=s_mul_precise fn=_ZNK4crab7domains4signIN4ikos8z_numberEEmlERKS4_ tag=s_mul harness=h_s_mul props=C08 tier=thorough defs=ZM_PRECISE,ZBITS=6
-//@check id=s_div_precise fn=_ZNK4crab7domains4signIN4ikos8z_numberEEdvERKS4_ tag=s_div harness=h_s_div props=C08 tier=thorough defs=ZM_PRECISE,ZBITS=6
-//@check id=s_srem_precise fn=_ZNK4crab7domains4signIN4ikos8z_numberEE4SRemERKS4_ tag=s_srem harness=h_s_srem props=C08 tier=thorough defs=ZM_PRECISE,ZBITS=6
+//@check id=s_mul_precise fn=_ZNK4crab7domains4signIN4ikos8z_numberEEmlERKS4_ tag=s_mul harness=h_s_mul props=C08 tier=thorough defs=ZM_PRECISE,ZBITS=6 bounded="bit-precise small arithmetic: operands below 2^6 in magnitude only"
+//@check id=s_div_precise fn=_ZNK4crab7domains4signIN4ikos8z_numberEEdvERKS4_ tag=s_div harness=h_s_div props=C08 tier=thorough defs=ZM_PRECISE,ZBITS=6 bounded="bit-precise small arithmetic: operands below 2^6 in magnitude only"
+//@check id=s_srem_precise fn=_ZNK4crab7domains4signIN4ikos8z_numberEE4SRemERKS4_ tag=s_srem harness=h_s_srem props=C08 tier=thorough defs=ZM_PRECISE,ZBITS=6 bounded="bit-precise small arithmetic: operands below 2^6 in magnitude only"
 
 /* ---------------------------------------------------------------- conversions from / to intervals */
 //@check id=s_from_interval fn=_ZNK4crab7domains4signIN4ikos8z_numberEE13from_intervalERKNS2_8intervalIS3_EE props=C08 backends=cvc5,z3,kissat first_timeout=200 cost=5
